@@ -1193,34 +1193,44 @@ theorem flatFrom_upd_lt (L : Nat → List α) (i : Nat) (t : List α) :
     simp only [flatFrom]
     rw [upd_other _ _ (by omega : j ≠ i), ih (j + 1) (by omega)]
 
+/-- captured variables of `Concat` vs. what the components will still deliver.  The components
+    before `currentItr` are exhausted (so what the iterator will deliver is the concatenation of
+    what ALL components will deliver: `ConcatInv.flat`). -/
 def ConcatInv (n : Nat) (c : ConcatSt) (L : Nat → List α) (r' : List α) : Prop :=
   match c.currentItr with
   | some i => i < n ∧ c.remain = i + 1 ∧ r' = L i ++ flatFrom L (i + 1) (n - (i + 1)) ∧
-      (c.currentNextChecked = true → L i ≠ [])
-  | none => r' = [] ∧ c.currentNextChecked = false
+      (c.currentNextChecked = true → L i ≠ []) ∧ (∀ j, j < i → L j = [])
+  | none => r' = [] ∧ c.currentNextChecked = false ∧ (∀ j, j < n → L j = [])
 
 def concatRel (n : Nat) (R : σ → (Nat → List α) → Prop) (sc : σ × ConcatSt) (_d' r' : List α) : Prop :=
   ∃ L, R sc.1 L ∧ ConcatInv n sc.2 L r'
 
 theorem concatScan_spec {all : MMachine σ α} {R : σ → (Nat → List α) → Prop} (hS : MSim all R) :
     ∀ (k j : Nat) (s : σ) (c : ConcatSt) (L : Nat → List α) (lg : Log), j + k = all.n → R s L →
-      c.currentNextChecked = false →
+      c.currentNextChecked = false → (∀ j', j' < j → L j' = []) →
       ∃ s' c' lg', concatScan all k j (s, c) lg = (.ok (!(flatFrom L j k).isEmpty), (s', c'), lg') ∧
         R s' L ∧ ConcatInv all.n c' L (flatFrom L j k) ∧ (flatFrom L j k ≠ [] → c'.currentNextChecked = true) := by
   intro k
   induction k with
   | zero =>
-    intro j s c L lg hjk hR hc
-    exact ⟨s, { c with currentItr := none }, lg, by simp [concatScan, bind_apply, flatFrom], hR,
-      by simp [ConcatInv, flatFrom, hc], by simp [flatFrom]⟩
+    intro j s c L lg hjk hR hc hex
+    refine ⟨s, { c with currentItr := none }, lg, by simp [concatScan, bind_apply, flatFrom], hR,
+      ?_, by simp [flatFrom]⟩
+    simp only [ConcatInv, flatFrom, hc, true_and]
+    intro j' hj'; exact hex j' (by omega)
   | succ k ih =>
-    intro j s c L lg hjk hR hc
+    intro j s c L lg hjk hR hc hex
     obtain ⟨s1, lg1, h1, hR1⟩ := hS.hasNext j s L lg (by omega) hR
     cases hLj : L j with
     | nil =>
       rw [hLj] at h1
       simp only [List.isEmpty_nil, Bool.not_true] at h1
-      obtain ⟨s', c', lg', h2, hR2, hI2, hck⟩ := ih (j + 1) s1 c L lg1 (by omega) hR1 hc
+      have hex' : ∀ j', j' < j + 1 → L j' = [] := by
+        intro j' hj'
+        rcases Nat.lt_succ_iff_lt_or_eq.mp hj' with h | h
+        · exact hex j' h
+        · rw [h]; exact hLj
+      obtain ⟨s', c', lg', h2, hR2, hI2, hck⟩ := ih (j + 1) s1 c L lg1 (by omega) hR1 hc hex'
       refine ⟨s', c', lg', ?_, hR2, by simpa [flatFrom, hLj] using hI2, by simpa [flatFrom, hLj] using hck⟩
       simp [concatScan, bind_apply, onFst_eq _ h1, h2, flatFrom, hLj]
     | cons x t =>
@@ -1229,8 +1239,7 @@ theorem concatScan_spec {all : MMachine σ α} {R : σ → (Nat → List α) →
       refine ⟨s1, ⟨some j, j + 1, true⟩, lg1, ?_, hR1, ?_, by simp⟩
       · simp [concatScan, bind_apply, onFst_eq _ h1, flatFrom, hLj]
       · have : all.n - (j + 1) = k := by omega
-        simp [ConcatInv, flatFrom, hLj, this]
-        omega
+        refine ⟨by omega, rfl, by simp [flatFrom, hLj, this], by simp [hLj], hex⟩
 
 theorem concatCurrentNext_spec {all : MMachine σ α} {R : σ → (Nat → List α) → Prop} (hS : MSim all R)
     (s : σ) (c : ConcatSt) (L : Nat → List α) (r' : List α) (lg : Log) (hR : R s L)
@@ -1243,32 +1252,37 @@ theorem concatCurrentNext_spec {all : MMachine σ α} {R : σ → (Nat → List 
     cases cur with
     | none => simp [ConcatInv] at hI
     | some i =>
-      obtain ⟨hi, hrem, rfl, hne⟩ := hI
+      obtain ⟨hi, hrem, rfl, hne, hex⟩ := hI
       have hne' : L i ≠ [] := hne rfl
-      refine ⟨s, ⟨some i, rem, true⟩, lg, ?_, hR, ⟨hi, hrem, rfl, hne⟩, by simp⟩
+      refine ⟨s, ⟨some i, rem, true⟩, lg, ?_, hR, ⟨hi, hrem, rfl, hne, hex⟩, by simp⟩
       cases hLi : L i with
       | nil => exact absurd hLi hne'
       | cons x t => simp [concatCurrentNext, bind_apply]
   | false =>
     cases cur with
     | none =>
-      obtain ⟨rfl, _⟩ := hI
-      exact ⟨s, ⟨none, rem, false⟩, lg, by simp [concatCurrentNext, bind_apply], hR, by simp [ConcatInv], by simp⟩
+      obtain ⟨rfl, _, hex⟩ := hI
+      exact ⟨s, ⟨none, rem, false⟩, lg, by simp [concatCurrentNext, bind_apply], hR, ⟨rfl, rfl, hex⟩, by simp⟩
     | some i =>
-      obtain ⟨hi, hrem, rfl, _⟩ := hI
+      obtain ⟨hi, hrem, rfl, _, hex⟩ := hI
       simp only at hrem; subst hrem
       obtain ⟨s1, lg1, h1, hR1⟩ := hS.hasNext i s L lg hi hR
       cases hLi : L i with
       | cons x t =>
         rw [hLi] at h1
         simp only [List.isEmpty_cons, Bool.not_false] at h1
-        refine ⟨s1, ⟨some i, i + 1, true⟩, lg1, ?_, hR1, ⟨hi, rfl, by simp [hLi], by simp [hLi]⟩, by simp⟩
+        refine ⟨s1, ⟨some i, i + 1, true⟩, lg1, ?_, hR1, ⟨hi, rfl, by simp [hLi], by simp [hLi], hex⟩, by simp⟩
         simp [concatCurrentNext, bind_apply, onFst_eq _ h1]
       | nil =>
         rw [hLi] at h1
         simp only [List.isEmpty_nil, Bool.not_true] at h1
+        have hex' : ∀ j', j' < i + 1 → L j' = [] := by
+          intro j' hj'
+          rcases Nat.lt_succ_iff_lt_or_eq.mp hj' with h | h
+          · exact hex j' h
+          · rw [h]; exact hLi
         obtain ⟨s', c', lg', h2, hR2, hI2, hck⟩ :=
-          concatScan_spec hS (all.n - (i + 1)) (i + 1) s1 ⟨some i, i + 1, false⟩ L lg1 (by omega) hR1 rfl
+          concatScan_spec hS (all.n - (i + 1)) (i + 1) s1 ⟨some i, i + 1, false⟩ L lg1 (by omega) hR1 rfl hex'
         refine ⟨s', c', lg', ?_, hR2, by simpa using hI2, by simpa using hck⟩
         simp [concatCurrentNext, bind_apply, onFst_eq _ h1, h2]
 
@@ -1302,7 +1316,7 @@ theorem concat_sim {all : MMachine σ α} {R : σ → (Nat → List α) → Prop
     cases cur with
     | none => simp [ConcatInv] at hI'
     | some i =>
-      obtain ⟨hi, hrem, hr, hne⟩ := hI'
+      obtain ⟨hi, hrem, hr, hne, hex⟩ := hI'
       simp only at hrem hr hne
       cases hLi : L i with
       | nil => exact absurd hLi (hne trivial)
@@ -1313,7 +1327,7 @@ theorem concat_sim {all : MMachine σ α} {R : σ → (Nat → List α) → Prop
         obtain ⟨s2, lg2, h2, hR2⟩ := hS.next_cons i s' L a t lg' hi hR' hLi
         refine ⟨(s2, ⟨some i, rem, false⟩), lg2, ?_, upd L i t, hR2, ?_⟩
         · rw [hnext _ _ _ _ _ h1]; simp [onFst_eq _ h2]
-        · refine ⟨hi, hrem, ?_, by simp⟩
+        · refine ⟨hi, hrem, ?_, by simp, fun j hj => by rw [upd_other _ _ (by omega : j ≠ i)]; exact hex j hj⟩
           simp [flatFrom_upd_lt L i t _ _ (Nat.lt_succ_self i)]
   · rintro ⟨s, c⟩ d' lg ⟨L, hR, hI⟩
     obtain ⟨s', c', lg', h1, hR', hI', _⟩ := concatCurrentNext_spec hS s c L [] lg hR hI
